@@ -93,6 +93,13 @@ def gen_literals(ctx):
              "{:{<}", "{:}<}", "{:}}", "{:{}", "{{}", "{}}", "}{", "{{{}}}", "{{{{}}}}", "{:é<5}", "{:🦀^}", "{é}", "{_}", "{_x}", "{x_}",
              "{r#x}", "{x=}", "{x.y}", "{0.1}", "{x:y$}", "{:.}", "{:.x}", "{:.x$}", "{:-}", "{:+-}", "{:-#}", "{:#-}", "{:#?}", "{:?}",
              "{:e}", "{:E}", "{:p}", "{:b}", "{:o}", "{:q}", "{:?p}", "{:\t}", "{\n}", "{0\n}", "{0 :}", "{0: }", "{ :}", "{:  }"]
+    # type identifiers std does not know (case variants and neighbours of the valid ones), bare and with modifiers,
+    # as the whole literal and inside text
+    for t in ("O", "B", "P", "D", "d", "s", "S", "i", "u", "c", "e?", "E?", "o?", "b?", "p?", "xx", "Xx", "xX", "XX", "?x", "?X", "??", "x??", "ox", "display", "debug", "lower_hex"):
+        for a in ("", "0", "_0", "x", "1"):
+            for m in ("", ">5", "#", "08", ".3", "+"):
+                for pre, post in (("", ""), ("a", ""), ("", " b"), ("{{", "}}")):
+                    lits.append("%s{%s:%s%s}%s" % (pre, a, m, t, post))
     return list(dict.fromkeys(lits))
 
 
